@@ -46,8 +46,18 @@ pub fn worker_main(prop: &dyn Prop, ctx: Ctx, w: u64, nw: u64, start_unit: u64) 
                 prop.run_unit(&c, u, &mut out)
             }));
             if r.is_err() {
-                emit(&format!("E harness panic in unit {}", u));
-                std::process::exit(3);
+                // a panic that unwound out of the unit: if it started inside calamine it is an
+                // observation about calamine (reported under this property), else a harness error
+                match crate::monitor::take_unguarded_calamine_fault() {
+                    Some(f) => out.fail(
+                        format!("{}|unguarded|fault:{}", prop.id().to_lowercase(), f.class),
+                        serde_json::json!({"unit": u, "detail": f.detail}),
+                    ),
+                    None => {
+                        emit(&format!("E harness panic in unit {}", u));
+                        std::process::exit(3);
+                    }
+                }
             }
             emit(&format!("U {}", out.to_json(u)));
         }
